@@ -443,3 +443,103 @@ def expand_aliases(fn: ast.FunctionDef) -> ast.FunctionDef:
         fn = A().visit(fn)
     ast.fix_missing_locations(fn)
     return fn
+
+
+def per_iteration_objects(fn: ast.AST) -> List[tuple]:
+    """Collected-per-iteration rule: inside a loop an object that is *added to a collection* (``coll.append(x)``, ``coll += [x]``,
+    ``coll[k] = x``) and *filled in the same loop* (``x[...] = v``, ``x.attr(...)`` mutators) must have been created in that loop
+    iteration.  If the one object was created before the loop, every iteration fills the same object.  Returns
+    (loop, name, creation node, add node)."""
+    out = []
+    creators = ("DataFrame", "dict", "list", "set", "defaultdict", "OrderedDict", "Series")
+    for lp in ast.walk(fn):
+        if not isinstance(lp, (ast.For, ast.While)):
+            continue
+        added = {}
+        for n in ast.walk(lp):
+            if isinstance(n, ast.Call) and isinstance(n.func, ast.Attribute) and n.func.attr in ("append", "add") and n.args and isinstance(n.args[0], ast.Name):
+                added.setdefault(n.args[0].id, n)
+            if isinstance(n, ast.AugAssign) and isinstance(n.op, ast.Add) and isinstance(n.value, ast.List):
+                for e in n.value.elts:
+                    if isinstance(e, ast.Name):
+                        added.setdefault(e.id, n)
+        for name, addn in added.items():
+            filled = [n for n in ast.walk(lp) if isinstance(n, ast.Assign) and isinstance(n.targets[0], ast.Subscript) and isinstance(n.targets[0].value, ast.Name)
+                      and n.targets[0].value.id == name]
+            if not filled:
+                continue
+            defs = [n for n in ast.walk(fn) if isinstance(n, ast.Assign) and len(n.targets) == 1 and isinstance(n.targets[0], ast.Name) and n.targets[0].id == name]
+            fresh = [d for d in defs if isinstance(d.value, (ast.Dict, ast.List, ast.Set)) or (isinstance(d.value, ast.Call) and (
+                (isinstance(d.value.func, ast.Attribute) and d.value.func.attr in creators) or (isinstance(d.value.func, ast.Name) and d.value.func.id in creators)))]
+            if not fresh or len(fresh) != len(defs):
+                continue
+            inside = [d for d in fresh if any(x is d for x in ast.walk(lp))]
+            if not inside:
+                # the add itself must be inside this loop but the creation outside: and the loop must be the innermost loop around the fills
+                if all(any(x is f for x in ast.walk(lp)) for f in filled):
+                    out.append((lp, name, fresh[0], addn))
+    return out
+
+
+def shared_templates(idx, rels) -> List[tuple]:
+    """Module-level and class-level container literals whose values include mutable objects and that some function reads without a
+    deep copy: a shallow copy (``dict(T)``, ``T.copy()``, ``{**T}``) still shares the nested objects between all users.
+    Returns (FuncInfo, template name, use node, literal source, nested source)."""
+    out = []
+    for rel in rels:
+        m = idx.modules.get(rel)
+        if m is None:
+            continue
+        temps = []       # (owner class or None, name, literal)
+        for st in m.tree.body:
+            if isinstance(st, ast.Assign) and isinstance(st.targets[0], ast.Name) and isinstance(st.value, (ast.Dict, ast.List, ast.Set)):
+                temps.append((None, st.targets[0].id, st.value))
+            if isinstance(st, ast.ClassDef):
+                for cs in st.body:
+                    if isinstance(cs, ast.Assign) and isinstance(cs.targets[0], ast.Name) and isinstance(cs.value, (ast.Dict, ast.List, ast.Set)):
+                        temps.append((st.name, cs.targets[0].id, cs.value))
+        for owner, name, lit in temps:
+            vals = lit.values if isinstance(lit, ast.Dict) else lit.elts
+            nested = [v for v in vals if isinstance(v, (ast.Dict, ast.List, ast.Set))]
+            if not nested:
+                continue
+            for fi in m.functions.values():
+                for n in ast.walk(fi.node):
+                    hit = False
+                    if owner is None and isinstance(n, ast.Name) and n.id == name and isinstance(n.ctx, ast.Load):
+                        hit = True
+                    if owner is not None and isinstance(n, ast.Attribute) and n.attr == name and isinstance(n.ctx, ast.Load) and isinstance(n.value, ast.Name) \
+                            and n.value.id in ("self", "cls", owner):
+                        hit = True
+                    if not hit:
+                        continue
+                    deep = any(isinstance(c, ast.Call) and call_name(c) == "deepcopy" and any(x is n for x in ast.walk(c)) for c in ast.walk(fi.node))
+                    if not deep:
+                        out.append((fi, (owner + "." if owner else "") + name, n, ast.unparse(lit)[:60], ", ".join(ast.unparse(v) for v in nested)[:60]))
+    return out
+
+
+def probe_create_mismatches(fn: ast.AST) -> List[tuple]:
+    """``if k not in A: B[k] = <new container>`` with A and B different tables: the entry is (re)created whenever k is missing from the
+    *other* table - either on every pass (data lost) or never.  Returns (if node, probed, created)."""
+    out = []
+    for n in ast.walk(fn):
+        if not isinstance(n, ast.If):
+            continue
+        t = n.test
+        if isinstance(t, ast.UnaryOp) and isinstance(t.op, ast.Not) and isinstance(t.operand, ast.Compare) and isinstance(t.operand.ops[0], ast.In):
+            key, probed = t.operand.left, t.operand.comparators[0]
+        elif isinstance(t, ast.Compare) and len(t.ops) == 1 and isinstance(t.ops[0], ast.NotIn):
+            key, probed = t.left, t.comparators[0]
+        else:
+            continue
+        if isinstance(probed, ast.Call) and isinstance(probed.func, ast.Attribute) and probed.func.attr == "keys":
+            probed = probed.func.value
+        for st in n.body:
+            if isinstance(st, ast.Assign) and isinstance(st.targets[0], ast.Subscript) and ast.unparse(st.targets[0].slice) == ast.unparse(key):
+                fresh = isinstance(st.value, (ast.Dict, ast.List, ast.Set)) or (isinstance(st.value, ast.Call) and isinstance(st.value.func, ast.Name)
+                                                                                 and st.value.func.id in ("dict", "list", "set", "defaultdict"))
+                created = st.targets[0].value
+                if fresh and ast.unparse(created) != ast.unparse(probed):
+                    out.append((n, ast.unparse(probed), ast.unparse(created)))
+    return out
